@@ -19,7 +19,7 @@ import AioftpModel.Lemmas.Logs
 import AioftpModel.Lemmas.Paths
 
 namespace C20
-open Model Py Generated
+open Model Model.Logs Py Generated
 
 /-- `verb<SP>p<tail>` as it arrives at `parse_command` (`tail` = the blank end of the line, e.g. CR LF) -/
 def passLine (verb p tail : Str) : Str := verb ++ ' ' :: (p ++ tail)
